@@ -41,7 +41,7 @@ SIZES = {"tiny": (1, 6), "small": (7, 30), "medium": (31, 100), "large": (101, 3
 STEPS_PER_SPLIT = 25  # measured on the pinned tree: exactly 21 steps per split (+19 per build), whatever n
 
 
-def build_budget(n, d, leaf, strategy, n_distinct, maxmult):
+def build_budget(n, d, leaf, strategy, n_distinct, n_repeated, maxmult):
     """Step budget of one build = 5000 + 25 * (budget in *splits*).  Measured: a build costs exactly
     21 steps per split + 19, whatever n (numpy does the per-point work), so liveness is about the NUMBER OF
     SPLITS.  A split is *useful* if both sides are non-empty, else *useless* (pivot = maximum on the axis).
@@ -52,20 +52,28 @@ def build_budget(n, d, leaf, strategy, n_distinct, maxmult):
     build therefore makes <= d-1 useless splits per useful one, plus <= d per final set (a repaired build
     may need a full turn of the axes to see that a set cannot be split): <= 2*d*n_distinct.  Budget: 10x.
 
-    fast / random: the number of useless splits is random.  For a set of s > leaf points whose largest
-    group of identical points has c <= c* = min(leaf, maxmult) members, a full turn of the d axes is useless
-    with probability <= exp(-(s-c)/s) <= exp(-1/G), G = (leaf+1)/(leaf+1-c*), under the 'random' strategy, so
-    E[splits] <= (n_distinct-1) * (1 + d*(2+G)).  Budget: 4x that bound on the mean (measured on adversarial
-    worlds - 'leaf' identical points plus one, repeated: >= 7x the worst of 400 seeds, >= 14x the mean; on
-    generated worlds far more) + 50*d*G splits for the tail of a single waiting time (probability that a
-    terminating 'random' build exceeds the budget < 1e-13 for every admissible point set)."""
+    fast / random: the number of useless splits is random.  Under 'random', for a set of s > leaf points whose
+    coordinate-wise maximum is taken by c of them (c <= c* = min(leaf, maxmult)), a full turn of the d axes is
+    useless with probability <= exp(-(s-c)/s), so the expected number of splits spent on that set is
+    <= 1 + d*(2 + s/(s-c)) <= 1 + d*(2+G) with G = (leaf+1)/(leaf+1-c).  c = 1 unless the maximum is a repeated
+    point AND s < 2*leaf; a repeated point plays that role for at most leaf-1 nested sets.  Hence
+        E[splits] <= (m-1)*(1 + d*(2+G1)) + d*heavy*(Gc-G1),   m = n_distinct, G1 = (leaf+1)/leaf,
+        Gc = (leaf+1)/(leaf+1-c*), heavy = min(m-1, (leaf-1)*n_repeated).
+    Budget: 4x that bound on the mean + 50*d*Gc splits for the tail of a single waiting time: the probability
+    that a terminating 'random' build exceeds it is < 1e-13 for every admissible point set.  Measured: >= 16x the
+    worst of 60000 terminating builds of generated worlds; on hand-made adversarial worlds (groups of `leaf`
+    identical points plus one point that differs on a single axis) >= 7x the worst of 400 seeds, >= 14x the mean.
+    'fast' equals 'balanced' on sets of <= 50 points and samples 50 candidates above; it gets the same budget."""
     m = max(1, n_distinct)
     if strategy == "balanced":
         splits = 200 + 10 * n + 20 * d * m
     else:
         cstar = min(leaf, max(1, maxmult))
-        G = (leaf + 1.0) / (leaf + 1.0 - cstar)
-        splits = 200 + 10 * n + 4 * (m - 1) * (1 + d * (2 + G)) + 50 * d * G
+        G1 = (leaf + 1.0) / leaf
+        Gc = (leaf + 1.0) / (leaf + 1.0 - cstar)
+        heavy = min(m - 1, (leaf - 1) * n_repeated)
+        mean_bound = (m - 1) * (1 + d * (2 + G1)) + d * heavy * (Gc - G1)
+        splits = 200 + 10 * n + 4 * mean_bound + 50 * d * Gc
     return int(5000 + STEPS_PER_SPLIT * splits)
 
 
@@ -90,7 +98,7 @@ def _clean(x, dec):
 def gen_world(rng, tier):
     d = rng.wchoice([1, 2, 3, 4, 5], [2, 4, 5, 2, 2])
     if tier == "thorough":
-        cls = rng.wchoice(["tiny", "small", "medium", "large", "huge"], [3, 5, 4, 2, 0.4])
+        cls = rng.wchoice(["tiny", "small", "medium", "large", "huge"], [3, 5, 4, 2, 0.25])
     else:
         cls = rng.wchoice(["tiny", "small", "medium", "large"], [3, 5, 3, 1])
     lo, hi = SIZES[cls]
@@ -299,7 +307,7 @@ class C11(Sim):
             "returned, at least one query compared with brute force")
     FAULT_KINDS = ["prng_handover", "forced_pivot"]
     PROBES = ["leaf_smaller_than_k", "empty_side_after_split", "all_equal_on_axis", "k>=n", "radius_zero",
-              "query_on_data_point", "duplicates", "tie_at_kth", "radius_equals_data_distance", "rebuild",
+              "query_on_data_point", "duplicates", "tie_at_kth", "radius_equals_data_distance", "radius_hair_off_data_distance", "rebuild",
               "outside_query", "int_points"]
     QUICK_RUNS = 3000
     THOROUGH_RUNS = 200000
@@ -309,8 +317,8 @@ class C11(Sim):
         "overflow nor lose all precision); no NaN/inf",
         "n >= 1, 1 <= d <= 5, 1 <= max_leaf_size <= 12, k >= 1 (python int), r >= 0 finite (python float)",
         "point arrays are float64 or int64 ndarrays of shape (n, d); query points are Vec or float64 ndarray of size d",
-        "bounded liveness: 'finishes' means within build_budget(n, d, leaf, strategy, #distinct points, largest group "
-        "of identical points) interpreter steps (function entries + loop back-edges inside mouette): >= 10x the "
+        "bounded liveness: 'finishes' means within build_budget(n, d, leaf, strategy, #distinct points, #repeated "
+        "points, largest group of identical points) interpreter steps (function entries + loop back-edges inside mouette): >= 10x the "
         "deterministic worst case (balanced), >= 4x a proven bound on the mean and >= 10x every measured terminating "
         "build (fast/random)",
         "distances are compared with a slack of 4 ulp; radius membership is not judged inside |d_i - r| <= 4 ulp "
@@ -382,8 +390,10 @@ class C11(Sim):
         self.lo = self.P0.min(axis=0).astype(float)
         self.hi = self.P0.max(axis=0).astype(float)
         self.diag = float(np.sqrt(np.sum((self.hi - self.lo) ** 2)))
-        self.maxmult = max_multiplicity(self.P0)
-        self.n_distinct = len(np.unique(self.P0, axis=0))
+        _, counts = np.unique(self.P0, axis=0, return_counts=True)
+        self.maxmult = int(counts.max())          # largest group of identical points
+        self.n_distinct = int(len(counts))        # number of distinct points
+        self.n_repeated = int(np.sum(counts >= 2))  # number of distinct points that occur more than once
         self.const_axes = [a for a in range(self.d) if self.n > 1 and self.lo[a] == self.hi[a]]
         self.trees = [None] * N_SLOTS
         self.shared = cfg.get("prng_mode") == "shared_stream" and bool(cfg.get("faults_on"))
@@ -485,7 +495,7 @@ class C11(Sim):
             k = max(1, r.choice(ks))
             return {"c": c, "op": "knn", "t": t, "pt": pt, "k": int(k), "as": as_, "pk": pk}
         D = brute_distances(self.P0, np.array(pt, dtype=np.float64))
-        rk = r.wchoice(["zero", "tiny", "typical", "huge", "data"], [2, 2, 4, 1, 3])
+        rk = r.wchoice(["zero", "tiny", "typical", "huge", "data", "data+", "data-"], [2, 2, 4, 1, 2, 1.5, 1.5])
         if rk == "zero":
             rad = 0.0
         elif rk == "tiny":
@@ -498,8 +508,12 @@ class C11(Sim):
             rad = float(round(base * r.uniform(0.3, 1.6), 6))
         elif rk == "huge":
             rad = float(round(10.0 * (float(D.max()) + self.diag + 1.0), 3))
-        else:
+        elif rk == "data":
             rad = float(D[r.below(n)])  # exactly a data distance (as the library computes it)
+        else:
+            # a hair (2^-40 relative = 1024x the don't-care band) outside / inside the sphere through a data point:
+            # that point is then clearly in, resp. clearly out
+            rad = float(D[r.below(n)]) * (1.0 + 2.0 ** -40 if rk == "data+" else 1.0 - 2.0 ** -40)
         return {"c": c, "op": "radius", "t": t, "pt": pt, "r": rad, "as": as_, "pk": pk, "rk": rk}
 
     # ---------------------------------------------------------------- guards for replay
@@ -585,7 +599,7 @@ class C11(Sim):
         leaf, strat, slot = int(ev["leaf"]), ev["strategy"], ev["t"]
         dup = dup_class(self.P0, leaf)
         plan = {int(j): m for j, m in ev.get("forced", [])} if self.cfg.get("faults_on") else {}
-        limit = build_budget(n, d, leaf, strat, self.n_distinct, self.maxmult)
+        limit = build_budget(n, d, leaf, strat, self.n_distinct, self.n_repeated, self.maxmult)
         draws = PivotDraws(np.random.choice, plan)
         pts = np.array(self.P0)  # fresh writable copy
         consumers_before = self.prng_consumers
@@ -621,11 +635,15 @@ class C11(Sim):
         sizes = [a.size for a in self._leaf_arrays(tree)]
         self.trees[slot]["min_leaf"] = min(sizes) if sizes else 0
         self.trees[slot]["n_leaves"] = len(sizes)
-        if any(s == 0 for s in sizes):
+        # a split left one side empty: visible as an empty leaf, or certain because a consumed forced draw made the
+        # pivot the maximum of the candidates ('random': pivot = the draw itself)
+        if any(s == 0 for s in sizes) or (strat == "random" and any(m == "max" for _, m in draws.replaced)):
             self.probes["empty_side_after_split"] += 1
-        if self.const_axes:
+        # a split met an axis on which all its points agree: certain at the root when axis 0 is constant and n > leaf,
+        # else visible as an inner node that splits on a constant axis
+        if self.const_axes and n > leaf:
             split_axes = {nd.split_axis for nd in tree.nodes if isinstance(nd, self.KDTree.Node)}
-            if split_axes & set(self.const_axes):
+            if 0 in self.const_axes or split_axes & set(self.const_axes):
                 self.probes["all_equal_on_axis"] += 1
         return {"nodes": len(tree.nodes), "leaves": nleaves, "steps": b.steps, "draws": draws.draws,
                 "forced": draws.replaced}
@@ -720,6 +738,8 @@ class C11(Sim):
             self.probes["outside_query"] += 1
         if np.any(D == r):
             self.probes["radius_equals_data_distance"] += 1
+        if r > 0 and np.any((np.abs(D - r) <= r * 2.0 ** -39) & (np.abs(D - r) > ULPS * EPS * r)):
+            self.probes["radius_hair_off_data_distance"] += 1
         res = self._as_indices(out.value, "radius-exact", "radius", ac)
         if any(i < 0 or i >= n for i in res) or len(set(res)) != len(res):
             self.violation("radius-exact", "radius", "wrong_value", "query_radius", "repeated-or-out-of-range",
